@@ -1,3 +1,4 @@
+import Gtree.Lemmas.SourceRefines
 import Gtree.Lemmas.Distinct
 import Gtree.Lemmas.Output
 import Gtree.Lemmas.Validate
@@ -119,4 +120,14 @@ example : ([BuildOp.newRoot [0x72], .add 0 [0x61], .add 0 [0x62], .add 0 [0x61],
     = .mk [0x72] [.mk [0x61] [.mk [0x63] []], .mk [0x62] []] := by
   rfl
 
+end Gtree
+
+namespace Gtree
+/-- Tie to the source: the sentinel decision of every From-Root entry point is `validateTreeRoot`
+    (tree_handler_programmably.go, translated on this run): a nil node gives `ErrNilNode`, a node that is not a root
+    `ErrNotRoot`, a root no error — the model's `Store.validateRoot`. -/
+theorem C03_root_validation_is_the_source (s : Store) (i : Nat) :
+    Src.validateTreeRoot none = some .ErrNilNode ∧
+    Src.validateTreeRoot ((s.get? i).map pnodeSrc) = (s.validateRoot (some i)).bind sentinelSrc :=
+  ⟨validateTreeRoot_nil, validateTreeRoot_src s i⟩
 end Gtree
